@@ -103,7 +103,7 @@ fn parse_diags(v: &Value) -> (BTreeSet<Diag>, usize) {
 }
 
 /// One session against the real binary; returns the number of notifications checked.
-fn session(rep: &Report, cfg: &Config, hist: &[(usize, usize)]) -> u64 {
+fn session(rep: &Report, cfg: &Config, hist: &[(usize, usize)], two_events: bool) -> u64 {
     let sc = Scratch::new("c19");
     let ws = sc.path().join("ws");
     std::fs::create_dir_all(&ws).unwrap();
@@ -111,7 +111,7 @@ fn session(rep: &Report, cfg: &Config, hist: &[(usize, usize)]) -> u64 {
         write_file(&ws, "pyproject.toml", t);
     }
     let mut srv = Server::spawn(&[]);
-    let case = || json!({"config": cfg.desc, "pyproject": cfg.toml, "history": hist.iter().map(|(d, v)| json!({"doc": DOCS[*d], "version": versions(*d)[*v].0, "text": versions(*d)[*v].1})).collect::<Vec<_>>()});
+    let case = || json!({"change_notifications_carry_two_events": two_events, "config": cfg.desc, "pyproject": cfg.toml, "history": hist.iter().map(|(d, v)| json!({"doc": DOCS[*d], "version": versions(*d)[*v].0, "text": versions(*d)[*v].1})).collect::<Vec<_>>()});
     if srv.initialize(Some(&ws)).is_err() || srv.wait_scan_complete().is_err() {
         rep.violation("server did not initialise / finish its scan", &cfg.desc, case);
         return 0;
@@ -128,6 +128,10 @@ fn session(rep: &Report, cfg: &Config, hist: &[(usize, usize)]) -> u64 {
         let ok = if !opened[*d] {
             opened[*d] = true;
             srv.did_open(&uri, text)
+        } else if two_events {
+            // the notification carries two full-document events: another version first, the new content last
+            let other = versions(*d)[(*v + 1) % versions(*d).len()].1;
+            srv.did_change_events(&uri, (step + 2) as i64, &[other, text])
         } else {
             srv.did_change(&uri, (step + 2) as i64, text)
         };
@@ -206,7 +210,7 @@ pub fn run(rep: &'static Report) {
     let sessions = AtomicU64::new(0);
     let states = std::sync::Mutex::new(BTreeSet::new());
     par_batches(&hists, 8, |_i, h| {
-        checked.fetch_add(session(rep, &none, h), Ordering::Relaxed);
+        checked.fetch_add(session(rep, &none, h, false), Ordering::Relaxed);
         sessions.fetch_add(1, Ordering::Relaxed);
         let mut cur = [None, None];
         for (d, v) in h {
@@ -222,7 +226,7 @@ pub fn run(rep: &'static Report) {
     ];
     let cases: Vec<(usize, usize)> = (0..cfgs.len()).flat_map(|c| (0..fixed.len()).map(move |f| (c, f))).collect();
     par_batches(&cases, 8, |_i, (c, f)| {
-        checked.fetch_add(session(rep, &cfgs[*c], &fixed[*f]), Ordering::Relaxed);
+        checked.fetch_add(session(rep, &cfgs[*c], &fixed[*f], false), Ordering::Relaxed);
         sessions.fetch_add(1, Ordering::Relaxed);
         let mut cur = [None, None];
         for (d, v) in &fixed[*f] {
@@ -230,6 +234,19 @@ pub fn run(rep: &'static Report) {
             states.lock().unwrap().insert((cur[0], cur[1], *d, *c + 1));
         }
     });
+    // (c) every history of depth 3 again, each change notification carrying two full-document events
+    let short: Vec<Vec<(usize, usize)>> = {
+        let mut hs: Vec<Vec<(usize, usize)>> = vec![vec![]];
+        for _ in 0..3 {
+            hs = hs.iter().flat_map(|h| actions.iter().map(move |a| { let mut x = h.clone(); x.push(*a); x })).collect();
+        }
+        hs
+    };
+    par_batches(&short, 8, |_i, h| {
+        checked.fetch_add(session(rep, &none, h, true), Ordering::Relaxed);
+        sessions.fetch_add(1, Ordering::Relaxed);
+    });
+    rep.set("two_event_sessions", short.len() as u64);
     let s = sessions.load(Ordering::Relaxed);
     rep.set("states", states.lock().unwrap().len() as u64);
     rep.set("transitions", checked.load(Ordering::Relaxed));
@@ -241,6 +258,6 @@ pub fn run(rep: &'static Report) {
     rep.set("history_depth", depth as u64);
     rep.set("exhaustive", true);
     rep.sample(json!({"config": cfgs[9].desc, "pyproject": cfgs[9].toml, "history": fixed[0].iter().map(|(d, v)| format!("{} := {}", DOCS[*d], versions(*d)[*v].0)).collect::<Vec<_>>()}));
-    rep.set("rule", "sessions with the REAL server binary over stdio on a tmpfs workspace (documents exist only in the editor; the client waits for the scan-complete log message first): (a) EVERY history of didOpen/didChange notifications of the stated depth over 2 documents × 5+4 versions (cycle, the same cycle three lines lower, scope mismatch, undeclared use, declared, broken syntax, empty), checked after every notification, default configuration; (b) every configuration — 8 subsets of disabled codes × {valid, unknown code mixed in, invalid glob mixed in, wrong type for another key, malformed TOML} + no file — under 3 fixed histories that raise and clear all three kinds of findings; oracle = a FRESH library index of the latest valid content of every document (the changed one analysed last), rendered with the publishing conventions and filtered by the reference configuration semantics; states = (conftest version, test version, last-changed document, configuration)");
+    rep.set("rule", "sessions with the REAL server binary over stdio on a tmpfs workspace (documents exist only in the editor; the client waits for the scan-complete log message first): (a) EVERY history of didOpen/didChange notifications of the stated depth over 2 documents × 5+4 versions (cycle, the same cycle three lines lower, scope mismatch, undeclared use, declared, broken syntax, empty), checked after every notification, default configuration; (c) every history of depth 3 once more with every change notification carrying two full-document events (another version first, the new content last: the document's content is the last event's); (b) every configuration — 8 subsets of disabled codes × {valid, unknown code mixed in, invalid glob mixed in, wrong type for another key, malformed TOML} + no file — under 3 fixed histories that raise and clear all three kinds of findings; oracle = a FRESH library index of the latest valid content of every document (the changed one analysed last), rendered with the publishing conventions and filtered by the reference configuration semantics; states = (conftest version, test version, last-changed document, configuration)");
     rep.assume("a pyproject.toml whose section has a key of the wrong type is treated like an unparsable file (defaults: nothing disabled)");
 }
